@@ -3,7 +3,7 @@
    PositionHlCommander as a sequential machine), exact rational arithmetic, land() repaired (F17a/F17b), go_to guarded (F17c).
    Logs are lists of recorded calls, NEWEST FIRST.  EStart is a ghost entry marking the thread start;
    the last field of EHover is the ghost "vertical velocity in force". *)
-From CF Require Import C17.Model C17.Proofs_a C17.Proofs_b C17.Proofs_c.
+From CF Require Import C17.Model C17.Proofs_a C17.Proofs_b C17.Proofs_c C17.Proofs_d.
 Open Scope Q_scope.
 
 (* Leaving an entered MotionCommander context — after any program of primitives (all 26 kinds, with default or
@@ -123,3 +123,19 @@ Theorem C17_hl_land_ends_with_stop : forall v lh s s' r,
   hfly s' = false /\ exists rest, hlog s' = HStop (hnow s') :: rest.
 Proof. exact hl_land_ends_with_stop. Qed.
 Print Assumptions C17_hl_land_ends_with_stop.
+
+(* The link contract between the commanders and the air (the drivers queue the packet OBJECT and read it later): if every
+   sent packet is a value — a fresh object (cell) that is never written again — then for EVERY transmit-delay schedule
+   (any interleaving of sends and radio transmissions) the transmitted stream, once the radio has caught up, is exactly the
+   commanded stream, in order.  So the call-level theorems above carry over to the air. *)
+Theorem C17_link_values_transmitted_as_commanded : forall (A : Type) (acts : list (lact A)),
+  NoDup (cells acts) -> ldrain (lrun acts l_init) = commanded acts.
+Proof. exact link_values_transmitted_as_commanded. Qed.
+Print Assumptions C17_link_values_transmitted_as_commanded.
+
+(* ... and it is necessary: with one shared mutable packet object a setpoint still queued is overwritten by the next one *)
+Theorem C17_link_shared_packet_refuted :
+  exists acts : list (lact Z),
+    cells acts = [O; O] /\ commanded acts = [Some 1%Z; Some 2%Z] /\ ldrain (lrun acts l_init) = [Some 2%Z; Some 2%Z].
+Proof. exact link_shared_packet_refuted. Qed.
+Print Assumptions C17_link_shared_packet_refuted.
